@@ -26,6 +26,11 @@ def c01(tier, seed):
         # impeding subsoil + saturation on non-uniform compartment grids (custom, and the grid the model deepens for deep roots)
         S("Tomato", seed=seed + 13, soil_spec=L.LAYERED_SOILS["impeding_uneven"], iwc={"value": ["SAT", "SAT"], "depth_layer": [1, 2]}, events=L.storm_events(y, (4, 20), (120, 60, 60, 60))),
         S("Maize", seed=seed + 14, soil_spec=L.LAYERED_SOILS["low_ksat"], iwc={"value": ["SAT", "SAT"], "depth_layer": [1, 2]}, regime="wet"),
+        # bunds in season only, water still standing when the season ends, off-season simulated (bunds removed with water behind them)
+        S("PaddyRice", "Paddy", seed=seed + 15, regime="monsoon", field={"bunds": True, "z_bund": 0.2, "bund_water": 100}, off_season=True, seasons=2,
+          iwc={"value": ["SAT", "SAT"], "depth_layer": [1, 2]}),
+        S("PaddyRiceGDD", "Paddy", seed=seed + 16, regime="monsoon", fallow={"bunds": True, "z_bund": 0.15, "bund_water": 60}, off_season=True, lead=30,
+          iwc={"value": ["SAT", "SAT"], "depth_layer": [1, 2]}),
     ]
     if tier == "thorough":
         scs += L.diverse(rnd, 240, focus="no_restrictive")
@@ -50,6 +55,10 @@ def c02(tier, seed):
         S("Potato", "SiltClay", seed=seed + 8, regime="arid", irr={"method": 2, "kw": {"IrrInterval": 4, "AppEff": 65, "MaxIrr": 40}}),
         S("PaddyRice", "Paddy", seed=seed + 9, regime="monsoon", field={"bunds": True, "z_bund": 0.05, "bund_water": 60}, fallow={"bunds": True, "z_bund": 0.02}, off_season=True, seasons=2, iwc={"value": ["SAT", "SAT"], "depth_layer": [1, 2]}),
         S("Soybean", seed=seed + 10, soil_spec=L.LAYERED_SOILS["low_ksat"], events=big, irr={"method": 1, "kw": {"SMT": [90] * 4, "AppEff": 100, "MaxIrr": 60}}, iwc={"value": ["FC", "FC"], "depth_layer": [1, 2]}),
+        S("PaddyRice", "Paddy", seed=seed + 11, regime="monsoon", field={"bunds": True, "z_bund": 0.2, "bund_water": 100}, off_season=True, seasons=2,
+          iwc={"value": ["SAT", "SAT"], "depth_layer": [1, 2]}),
+        S("Tomato", "Paddy", seed=seed + 12, regime="wet", fallow={"bunds": True, "z_bund": 0.1, "bund_water": 80}, off_season=True, lead=25,
+          iwc={"value": ["SAT", "SAT"], "depth_layer": [1, 2]}),
     ]
     n = 200 if tier == "thorough" else 4
     for i in range(n):
@@ -105,6 +114,15 @@ def c04(tier, seed):
         S("Sorghum", "Clay", seed=seed + 24, irr={"method": 4, "kw": {"NetIrrSMT": 85}}, iwc={"value": ["WP"]}),
         S("Wheat", "SiltClayLoam", seed=seed + 25, gw={"water_table": "Y", "dates": ["2001/04/20"], "values": [0.8]}, off_season=True, lead=20),
         S("Sunflower", "Loam", seed=seed + 26, field={"mulches": True, "mulch_pct": 60, "f_mulch": 0.7}, fallow={"mulches": True, "mulch_pct": 100, "f_mulch": 1.0}, off_season=True, lead=10, irr={"method": 1, "kw": {"SMT": [90] * 4, "WetSurf": 50}}),
+    ]
+    # ponding that starts under a developed canopy and lasts several days (aeration / submergence bookkeeping)
+    import datetime as _dt
+    wet = [{"date": L.dstr(_dt.date(2001, 4, 20) + _dt.timedelta(days=70 + k)), "P": 90} for k in range(6)]
+    scs += [
+        S("Maize", "Clay", seed=seed + 31, field={"bunds": True, "z_bund": 0.25}, events=wet),
+        S("PaddyRice", "Paddy", seed=seed + 32, regime="warm", field={"bunds": True, "z_bund": 0.2}, events=wet, iwc={"value": ["FC", "FC"], "depth_layer": [1, 2]}),
+        S("Soybean", "SiltClay", seed=seed + 33, field={"bunds": True, "z_bund": 0.12},
+          events=wet[:4] + [{"date": "2001/08/10", "P": 140}, {"date": "2001/08/11", "P": 100}, {"date": "2001/08/12", "P": 100}, {"date": "2001/08/13", "P": 90}]),
     ]
     scs += L.diverse(rnd, 200 if tier == "thorough" else 4, focus="no_restrictive")
     return scs
